@@ -81,6 +81,11 @@ pub fn fail(sig: impl Into<String>, what: impl Into<String>) -> Sexp {
 }
 
 pub mod c11;
+pub mod c07;
+pub mod c15;
+pub mod c12;
+pub mod c10;
+pub mod c06;
 pub mod c14;
 pub mod c13;
 pub mod c17;
@@ -93,6 +98,11 @@ pub mod c19;
 pub fn all() -> Vec<Box<dyn Prop>> {
     vec![
         Box::new(c11::C11),
+        Box::new(c07::C07),
+        Box::new(c15::C15),
+        Box::new(c12::C12),
+        Box::new(c10::C10),
+        Box::new(c06::C06),
         Box::new(c14::C14),
         Box::new(c13::C13),
         Box::new(c17::C17),
